@@ -93,7 +93,7 @@ class PoolRun(object):
     def ev(self, kind, obj, fn):
         S, pool = self.S, self.pool
         me = S.me()
-        if me is None or pool is None:
+        if me is None or pool is None or kind == "lock":
             return
         is_client = 100 < me.idx < 200
         k = kind
@@ -197,7 +197,7 @@ class PoolRun(object):
         if c == 1:
             ops += [["start"], ["stop"]]
             ops += [["release", t] for t in sorted(self.gated) if t not in self.released]
-        ops += [["enq", t] for t in range(1, self.nt + 1) if self.ts[t - 1] == "new" and t not in self.claimed]
+        ops += [["enq", t] for t in range(1, getattr(self, "base_nt", self.nt) + 1) if self.ts[t - 1] == "new" and t not in self.claimed]
         return ops
 
     def observe(self, rnd, n):
@@ -257,13 +257,17 @@ def serving_lower_bound(events, end):
 
 
 # --------------------------------------------------------------------------- random mode
-def random_trace(seed, maxmax=2, ntasks=3, nclients=1, observer=True):
+def random_trace(seed, maxmax=2, ntasks=3, nclients=1, observer=True, extend=0, ext_seed=0):
+    """extend > 0: the same execution (same seed => same program and schedule prefix), after which client 1 goes on
+    with `extend` further operations chosen by a second generator (model-guided search after a DRIFT, DESIGN 4.6)."""
     rnd = random.Random(seed)
+    rnd2 = random.Random(ext_seed * 7919 + seed)
     mx = rnd.randint(1, maxmax)
     mn = rnd.randint(0, mx)
     gated = [t for t in range(1, ntasks + 1) if rnd.random() < 0.5]
     raising = [t for t in range(1, ntasks + 1) if rnd.random() < 0.25]
-    R = PoolRun(mx, mn, ntasks, gated, raising, nclients)
+    R = PoolRun(mx, mn, ntasks + 3, gated, raising, nclients)
+    R.base_nt = ntasks
     S = R.S
     nops = {c: (rnd.randint(3, 9) if c == 1 else rnd.randint(1, 3)) for c in range(1, nclients + 1)}
 
@@ -276,6 +280,15 @@ def random_trace(seed, maxmax=2, ntasks=3, nclients=1, observer=True):
                 if op[0] == "enq":
                     R.claimed.add(op[1])
                 R.do_op(c, op)
+            if c == 1 and extend:
+                R.base_nt = R.nt
+                for _ in range(extend):
+                    ops = R.avail_ops(c)
+                    w = [4 if (o[0] == "start" and R.phase == "stopped") else 3 if o[0] == "enq" else 2 if o[0] == "release" else 1 for o in ops]
+                    op = rnd2.choices(ops, w)[0]
+                    if op[0] == "enq":
+                        R.claimed.add(op[1])
+                    R.do_op(c, op)
         return run
     for c in range(1, nclients + 1):
         S.spawn(client(c), "client%d" % c, 100 + c)
@@ -313,7 +326,8 @@ def random_trace(seed, maxmax=2, ntasks=3, nclients=1, observer=True):
     serving_lower_bound(ev, end)
     h = R.header(seed=seed, end=end, ev=ev, blocked=[b["thr"] for b in blocked],
                  blockedop=[(R.cop.get(b["thr"] - 100) or ["none"])[0] for b in blocked],
-                 enq=R.enq_order, started=R.start_order, kind="random", nsteps=S.steps)
+                 enq=R.enq_order, started=R.start_order, kind="random" if not extend else "extended", nsteps=S.steps,
+                 ext=[extend, ext_seed], params=[maxmax, ntasks, nclients])
     S.kill_all()
     return h
 
@@ -420,13 +434,17 @@ def replay_behaviour(beh, limit=400):
     end = "quiescent"
     while True:
         en = [t for t in S.live() if S.is_enabled(t)]
+        tmo = False
+        if not en:
+            en = [t for t in S.live() if t.can_timeout and t.idx >= 100]      # join(timeout) of a client expires
+            tmo = True
         if not en:
             end = "quiescent" if S.live() else "done"
             break
         if S.steps > STEP_CAP:
             end = "truncated"
             break
-        S.step(sorted(en, key=lambda t: t.idx)[0], False)
+        S.step(sorted(en, key=lambda t: t.idx)[0], tmo)
     blocked = [t.idx for t in S.live() if 100 <= t.idx < 200]
     ev = normalise(S.events)
     serving_lower_bound(ev, end)
@@ -441,7 +459,11 @@ def replay_behaviour(beh, limit=400):
 if __name__ == "__main__":
     mode = sys.argv[1]
     t0 = time.time()
-    if mode == "random":
+    if mode == "extend":
+        # argv[2]: json list of [seed, maxmax, nt, nc, extend, ext_seed]
+        out = sys.argv[3]
+        traces = [random_trace(a[0], a[1], a[2], a[3], True, a[4], a[5]) for a in json.load(open(sys.argv[2]))]
+    elif mode == "random":
         n, seed, out = int(sys.argv[2]), int(sys.argv[3]), sys.argv[4]
         maxmax = int(sys.argv[5]) if len(sys.argv) > 5 else 2
         nt = int(sys.argv[6]) if len(sys.argv) > 6 else 3
